@@ -44,6 +44,16 @@ def gen_cases(tier, seed):
 
 
 FIXED_FINITE = [
+    {  # nested abstract layer and a union offering an abstract type next to a leaf: full creation must keep growing
+        "name": "fin_nested_abstract",
+        "abstracts": [{"name": "Expr", "parent": None, "style": "abc"}, {"name": "Op", "parent": "Expr", "style": "decorator"}],
+        "prods": [
+            {"name": "Leaf", "parent": "Expr", "fields": []},
+            {"name": "Node", "parent": "Op", "fields": [["l", ["ref", "Expr"]], ["r", ["ref", "Expr"]]]},
+            {"name": "Wrap", "parent": "Op", "fields": [["e", ["union", ["ref", "Expr"], ["ref", "Op"]]], ["b", ["bool"]]]},
+        ],
+        "start": "Expr",
+    },
     {  # union nested under a refined list, members of different minimum depth
         "name": "fin_nested",
         "abstracts": [{"name": "Stmt", "parent": None, "style": "abc"}, {"name": "Expr", "parent": None, "style": "abc"}],
@@ -106,25 +116,43 @@ FIXED_FINITE = [
 ]
 
 
-def full_eligible(desc):
-    """Single abstract type; every class reference is that type; no list that may be empty."""
-    if len(desc["abstracts"]) != 1 or desc["start"] != desc["abstracts"][0]["name"]:
+def full_eligible(desc, model=None):
+    """'Where every abstract type is recursive ... full creation produces exactly the programs all of whose branches
+    end at the maximum depth' is exact when: the start symbol is abstract, every production belongs to an abstract
+    type, class-typed fields mention abstract types only, no list may be empty, there are no dependent refinements,
+    every abstract type is recursive with minimum depth 1, and every production with class-typed fields is recursive
+    with minimum depth 2 (so it fits wherever a leaf does not have to be taken)."""
+    names_abs = {a["name"] for a in desc["abstracts"]}
+    if desc["start"] not in names_abs or not all(p.get("parent") in names_abs for p in desc["prods"]):
         return False
-    a = desc["abstracts"][0]["name"]
 
     def ok(t):
         if t[0] == "ref":
-            return t[1] == a
+            return t[1] in names_abs
         if t[0] == "ann" and t[1][0] == "list":
             return t[2][1] >= 1 and ok(t[1][1])
-        if t[0] == "list":
+        if t[0] in ("list", "dep"):
             return False
-        if t[0] == "dep":
-            return False
-        return all(ok(x) for x in t[1:] if isinstance(x, list) and x and isinstance(x[0], str) and x[0] in ("ref", "ann", "list", "tuple", "union", "dep", "int", "bool", "str", "float"))
+        if t[0] == "ann":
+            return ok(t[1])
+        return all(ok(x) for x in t[1:] if isinstance(x, list) and x and isinstance(x[0], str))
 
-    recursive = any('"ref", "%s"' % a in __import__("json").dumps(p["fields"]) for p in desc["prods"])  # "where every abstract type is recursive"
-    return recursive and all(ok(t) for p in desc["prods"] for _, t in p["fields"]) and all(p.get("parent") == a for p in desc["prods"])
+    if not all(ok(t) for p in desc["prods"] for _, t in p["fields"]):
+        return False
+    if model is None:
+        return False
+    hi, _ = model.mindepth_table(False)
+    rec_set = set(model.recursive())
+    for c in model.registered:
+        if c not in model.reachable():
+            continue
+        if refmodel.is_abs(c):
+            if c not in rec_set or hi[c] != 1:
+                return False
+        elif any(model.classes_in(t) for _, t in model.fields(c)):
+            if c not in rec_set or hi[c] != 2:
+                return False
+    return True
 
 
 def leaves_at(model, v, d, depth=1):
@@ -242,7 +270,7 @@ def one_space(case, rec, built, g, model, d, frontier):
         for t in missing[:2]:
             td = model.text_depth(t)
             rec.violation(f"grow:missing:{'at-frontier' if td == d else 'below-frontier'}", dict(wit, program=core.short(t, 300), program_depth=td, missing=len(missing)))
-    elif mode == "full" and full_eligible(desc):
+    elif mode == "full" and full_eligible(desc, model):
         full = {t for t, (prog, _) in reach.items() if True}
         expected = set()
         # the full language: language members whose leaf nodes all sit at depth d (decided on reached programs and,
